@@ -349,7 +349,7 @@ fn le_sx(e: &LE) -> String {
 }
 /// what the generator believes a name holds (only used to bias towards well-typed programs)
 #[derive(Clone, PartialEq)]
-enum LK { Num, Bool, Str, ArrNum, ArrStr, Mat, Other }
+enum LK { Num, Bool, Str, ArrNum, ArrStr, Mat, EnumNum, EnumStr, EnumRows, Other }
 
 fn gen_lit(r: &mut Rng, k: &LK) -> LV {
     match k {
@@ -358,6 +358,7 @@ fn gen_lit(r: &mut Rng, k: &LK) -> LV {
         LK::ArrNum => { let fl = r.chance(1, 4); LV::Arr((0..r.below(4)).map(|_| if fl { LV::F(r.range(0, 9) as f64 / 2.0) } else { LV::I(r.range(0, 6)) }).collect()) }
         LK::ArrStr => LV::Arr((0..1 + r.below(3)).map(|_| LV::S(r.pick(&["a", "b"]).to_string())).collect()),
         LK::Mat => LV::Arr((0..1 + r.below(3)).map(|_| LV::Arr((0..1 + r.below(3)).map(|_| LV::I(r.range(0, 6))).collect())).collect()),
+        LK::EnumNum | LK::EnumStr | LK::EnumRows => LV::Arr(vec![]),
         LK::Other => match r.below(3) { 0 => LV::Arr(vec![LV::I(1), LV::S("a".into())]), 1 => LV::Arr(vec![]), _ => LV::Arr(vec![LV::Arr(vec![LV::I(1)]), LV::Arr(vec![LV::S("a".into())])]) },
     }
 }
@@ -372,7 +373,7 @@ fn gen_le(r: &mut Rng, env: &[(String, LK)], want: &LK, d: u32) -> (LE, LK) {
         let (e, _) = gen_le(r, env, &wrong, 0);
         return (e, want.clone());
     }
-    if d == 0 || r.chance(1, 3) {
+    if (d == 0 || r.chance(1, 3)) && !matches!(want, LK::EnumNum | LK::EnumStr | LK::EnumRows) {
         if r.chance(1, 2) { if let Some(n) = pick_var(r, want) { return (LE::Var(n), want.clone()); } }
         return (LE::Lit(gen_lit(r, want)), want.clone());
     }
@@ -394,6 +395,12 @@ fn gen_le(r: &mut Rng, env: &[(String, LK)], want: &LK, d: u32) -> (LE, LK) {
             1 => { if let Some(n) = pick_var(r, &LK::Mat) { let (i, _) = gen_le(r, env, &LK::Num, 0); (LE::Acc(n, vec![i]), LK::ArrNum) } else { (LE::Lit(gen_lit(r, &LK::ArrNum)), LK::ArrNum) } }
             _ => (LE::Lit(gen_lit(r, &LK::ArrNum)), LK::ArrNum),
         },
+        LK::EnumNum | LK::EnumStr | LK::EnumRows => {
+            let inner = match want { LK::EnumNum => LK::ArrNum, LK::EnumStr => LK::ArrStr, _ => LK::Mat };
+            let (a, _) = gen_le(r, env, &inner, d.saturating_sub(1));
+            let f = if r.chance(1, 4) { "enum" } else { "enumerate" };
+            (LE::Call(f.into(), if r.chance(1, 12) { vec![a.clone(), a] } else { vec![a] }), want.clone())
+        }
         k => (LE::Lit(gen_lit(r, k)), k.clone()),
     }
 }
@@ -429,7 +436,7 @@ fn gen_lets(r: &mut Rng, max: usize) -> (Vec<(String, LK)>, Vec<(String, LE)>) {
     let mut env: Vec<(String, LK)> = if r.chance(1, 4) { vec![("PI".to_string(), LK::Num), ("Infinity".to_string(), LK::Num), ("MinusInfinity".to_string(), LK::Num)] } else { vec![] };
     let mut lets: Vec<(String, LE)> = vec![];
     for k in 0..2 + r.below(max) {
-        let want = r.pick(&[LK::Num, LK::Num, LK::Num, LK::Bool, LK::Str, LK::ArrNum, LK::ArrNum, LK::Mat, LK::ArrStr, LK::Other]).clone();
+        let want = r.pick(&[LK::Num, LK::Num, LK::Num, LK::Bool, LK::Str, LK::ArrNum, LK::ArrNum, LK::Mat, LK::ArrStr, LK::Other, LK::EnumNum]).clone();
         let (e, kind) = gen_le(r, &env, &want, 2);
         let name = if r.chance(1, 20) && !env.is_empty() { env[0].0.clone() } else if r.chance(1, 25) { "_".to_string() } else { format!("q{}", k) };
         if name != "_" && !env.iter().any(|p| p.0 == name) { env.push((name.clone(), kind)); }
@@ -461,11 +468,12 @@ fn gen_its(r: &mut Rng, cenv: &[(String, LK)], low: bool, fresh: &mut usize, min
     let mut env = cenv.to_vec();
     let mut its = vec![];
     for _ in 0..min + r.below(3 - min) {
-        let shape = r.below(if low { 8 } else { 10 });
-        let want = match shape { 0..=3 => LK::ArrNum, 4..=6 => LK::Mat, 7 => LK::ArrStr, 8 => LK::Num, _ => LK::Other };
+        let shape = r.below(if low { 12 } else { 14 });
+        let want = match shape { 0..=3 => LK::ArrNum, 4..=6 => LK::Mat, 7 => LK::ArrStr, 8 | 9 => LK::EnumNum, 10 => LK::EnumStr, 11 => LK::EnumRows, 12 => LK::Num, _ => LK::Other };
         let (over, _) = gen_le(r, &env, &want, 1);
-        let tuple = match want { LK::Mat => r.chance(2, 3), LK::ArrNum | LK::ArrStr => !low && r.chance(1, 8), _ => r.chance(1, 3) };
-        let nv = if tuple { 1 + r.below(if low { 2 } else { 3 }) } else { 1 };
+        let is_enum = matches!(want, LK::EnumNum | LK::EnumStr | LK::EnumRows);
+        let tuple = match want { LK::Mat => r.chance(2, 3), LK::ArrNum | LK::ArrStr => !low && r.chance(1, 8), LK::EnumNum | LK::EnumStr | LK::EnumRows => low || r.chance(5, 6), _ => r.chance(1, 3) };
+        let nv = if tuple { if is_enum { if low { 1 + r.below(2) } else { 1 + r.below(3) } } else { 1 + r.below(if low { 2 } else { 3 }) } } else { 1 };
         let mut vars = vec![];
         for _ in 0..nv {
             *fresh += 1;
@@ -473,7 +481,11 @@ fn gen_its(r: &mut Rng, cenv: &[(String, LK)], low: bool, fresh: &mut usize, min
             vars.push(name);
         }
         let elem = match (&want, tuple) { (LK::ArrNum, false) => LK::Num, (LK::ArrStr, false) => LK::Str, (LK::Mat, false) => LK::ArrNum, (LK::Mat, true) => LK::Num, _ => LK::Other };
-        for v in &vars { if v != "_" && !env.iter().any(|p| &p.0 == v) { env.push((v.clone(), elem.clone())); } }
+        for (pos, v) in vars.iter().enumerate() {
+            // components of an enumerate element: (element, index)
+            let k = if is_enum && tuple { match (pos, &want) { (1, _) => LK::Num, (0, LK::EnumNum) => LK::Num, (0, LK::EnumStr) => LK::Str, (0, LK::EnumRows) => LK::ArrNum, _ => LK::Other } } else { elem.clone() };
+            if v != "_" && !env.iter().any(|p| &p.0 == v) { env.push((v.clone(), k)); }
+        }
         its.push(LIt { vars, tuple, over });
     }
     (its, env)
